@@ -90,7 +90,8 @@ def replay(case, ctx):
         fc, e = call(frequency_components, circuit, wm)
         r.observations += 1
         want_f = [float(x) * wu for x in freqs]
-        okf = e is None and len(fc) == len(want_f) and all(close(a, b, max(want_f + [1.0]), rtol=1e-9) for a, b in zip(fc, want_f))
+        # the list of distinct frequencies, compared as a set (in ascending order on both sides)
+        okf = e is None and len(fc) == len(want_f) and all(close(a, b, max(want_f + [1.0]), rtol=1e-9) for a, b in zip(sorted(float(x) for x in fc), sorted(want_f)))
         if not okf:
             sig = 'frequency_components'
             if e is None and len(fc) > len(want_f) and len({round(float(x), 9) for x in fc}) == len(want_f):
@@ -152,7 +153,10 @@ def replay(case, ctx):
                     for j, f_, cj in zip(src, fac, conj):
                         v = line_value(lines[j]['parts'], field, key, unit) * f_
                         want.append(v.conjugate() if cj else v)
-                    ok = len(ws) == len(exp_w) and all(close(a, b, max(want_f + [1.0])) for a, b in zip(ws, exp_w)) and all(close(a, b, sc) for a, b in zip(xs, want))
+                    # spectral lines matched by frequency (the order in which they are listed is not part of the property)
+                    got_lines = sorted(zip([float(x) for x in ws], [complex(x) for x in xs]), key=lambda t_: t_[0])
+                    want_lines = sorted(zip(exp_w, want), key=lambda t_: t_[0])
+                    ok = len(got_lines) == len(want_lines) and all(close(a[0], b[0], max(want_f + [1.0])) and close(a[1], b[1], sc) for a, b in zip(got_lines, want_lines))
                     if not ok:
                         mism.append({'what': f'{what}.{getter.__name__}({name!r})', 'got': repr((list(map(float, ws)), list(map(complex, xs)))), 'want': repr((exp_w, want)),
                                      'signature': f'value:frequency_domain:{"one" if one_sided else "two"}_sided', 'detail': ctxs})
